@@ -35,10 +35,10 @@ props: C15 C10 C04
 entry: h_simple_init
 unwind: 4
 fn: lzma_simple_coder_init
-sentinels: 3
+sentinels: 4
 expect: 10
 replay: none
-desc: lzma_simple_coder_init: a start_offset that is not a multiple of the filter's alignment is OPTIONS_ERROR; otherwise now_pos = start_offset (0 without options), buffer state cleared, 2*unfiltered_max bytes of buffer; when the second allocation (filter state) fails the coder object stays owned by next->coder so that lzma_next_end releases it
+desc: lzma_simple_coder_init: a start_offset that is not a multiple of the filter's alignment is OPTIONS_ERROR; otherwise now_pos = start_offset (0 without options), buffer state cleared, 2*unfiltered_max bytes of buffer; when the second allocation (filter state) fails the coder object stays owned by next->coder so that lzma_next_end releases it; initialising the SAME coder object again after it has been used (any leftover now_pos / buffer state) gives exactly the fresh state again: now_pos = the new start_offset, 0 without options
 assume: lzma_alloc is malloc with nondeterministic failure; lzma_next_filter_init is a stub
 */
 
@@ -74,6 +74,7 @@ struct in {
 	uint8_t held[2 * UMAX], inb[8]; size_t in_size, out_size; uint32_t action;
 	uint8_t rem[3];
 	uint32_t start_offset, alignment; uint8_t has_opts, fail_mask; size_t simple_size;
+	uint32_t start_offset2; uint8_t has_opts2;
 };
 static struct in IN VERIF_IN_INIT;
 
@@ -152,4 +153,16 @@ void h_simple_init(void)
 	if (IN.has_opts && (IN.start_offset & (IN.alignment - 1))) { ASSERT(r == LZMA_OPTIONS_ERROR, "start_offset must be a multiple of the filter's alignment"); REACH(sinit_misaligned); return; }
 	ASSERT(r == LZMA_OK && c->now_pos == (IN.has_opts ? IN.start_offset : 0) && c->allocated == 2 * UMAX && c->pos == 0 && c->filtered == 0 && c->size == 0 && !c->end_was_reached, "fresh filter state at the requested start offset");
 	REACH(sinit_ok);
+	/* the same coder object is initialised AGAIN (next Block of a Stream, a reused lzma_stream) after it has been used:
+	 * whatever the previous use left behind must be forgotten */
+	ASSUME(IN.has_opts2 <= 1 && IN.pos <= IN.filtered && IN.filtered <= IN.size && IN.size <= 2 * UMAX && IN.end_reached <= 1);
+	c->now_pos = IN.now_pos; c->pos = IN.pos; c->filtered = IN.filtered; c->size = IN.size; c->end_was_reached = IN.end_reached;
+	lzma_options_bcj o2 = { .start_offset = IN.start_offset2 };
+	const lzma_filter_info f2[2] = { { .id = LZMA_FILTER_X86, .init = NULL, .options = IN.has_opts2 ? &o2 : NULL }, { .id = LZMA_VLI_UNKNOWN, .init = NULL, .options = NULL } };
+	const unsigned allocs_before = g_allocs;
+	const lzma_ret r2 = lzma_simple_coder_init(&next, NULL, f2, &stub_filter, IN.simple_size, UMAX, IN.alignment, IN.is_encoder != 0);
+	ASSERT(next.coder == c && g_allocs == allocs_before, "re-initialisation reuses the coder object");
+	if (IN.has_opts2 && (IN.start_offset2 & (IN.alignment - 1))) { ASSERT(r2 == LZMA_OPTIONS_ERROR, "start_offset must be a multiple of the filter's alignment (re-init)"); return; }
+	ASSERT(r2 == LZMA_OK && c->now_pos == (IN.has_opts2 ? IN.start_offset2 : 0) && c->pos == 0 && c->filtered == 0 && c->size == 0 && !c->end_was_reached, "a re-initialised coder starts at the requested start offset (0 without options) with an empty buffer, whatever its previous use left behind");
+	REACH(sinit_reinit_ok);
 }
